@@ -89,6 +89,8 @@ func alphabet() []hostile {
 		{name: "post-echo(3)", typ: net.Post, svc: 1, obj: 1, act: 100, pay: fx.Int32(3)},
 		{name: "post-unknown-action", typ: net.Post, svc: 1, obj: 1, act: 999},
 		{name: "post-register(77)", typ: net.Post, svc: 1, obj: 1, act: 0, pay: regPayload(1, 105, 77)},
+		{name: "authenticate(count=16M)", typ: net.Call, svc: 0, obj: 0, act: 8, pay: []byte{0, 0, 0, 1}},
+		{name: "authenticate(count=2^31-1)", typ: net.Call, svc: 0, obj: 0, act: 8, pay: []byte{0xff, 0xff, 0xff, 0x7f}},
 		{name: "unknown-object", typ: net.Call, svc: 1, obj: 999, act: 100, pay: fx.Int32(1)},
 		{name: "unknown-service", typ: net.Call, svc: 9, obj: 1, act: 100, pay: fx.Int32(1)},
 		{name: "12-calls-unread", typ: net.Call, svc: 1, obj: 1, act: 100, pay: fx.Int32(2), repeat: 12},
@@ -99,7 +101,7 @@ func alphabet() []hostile {
 
 // body: a hostile authenticated peer sends up to n frames of the alphabet;
 // then a fresh client must still be served by every object.
-func body(n int, bounded bool) func() {
+func body(n int, bounded bool, custom ...func() []hostile) func() {
 	return func() {
 		w := fx.Start(bus.Yes{})
 		// a well-behaved client creates a second object and a subscription
@@ -129,6 +131,9 @@ func body(n int, bounded bool) func() {
 			h.StartDrain()
 		}
 		abc := alphabet()
+		if len(custom) > 0 {
+			abc = custom[0]()
+		}
 		var seq []hostile
 		for i := 0; i < n; i++ {
 			k := vrt.ChooseFree(len(abc)+1, "frame")
@@ -221,6 +226,40 @@ func body(n int, bounded bool) func() {
 		}
 		vrt.Observe("%s|%s|disc=%v|root=%v child=%v good=%v", model, names, disconnect, okRoot, okChild, okGood)
 	}
+}
+
+// truncations: every well-formed request of a base list with its payload cut
+// at every length (the frame itself is complete: header size = bytes sent).
+func truncations() []hostile {
+	type base struct {
+		name string
+		act  uint32
+		pay  []byte
+	}
+	bases := []base{
+		{"register", 0, regPayload(1, 105, 77)},
+		{"unregister", 1, regPayload(1, 105, 88)},
+		{"metaObject", 2, u32(1)},
+		{"property", 5, values(value.String("level"))},
+		{"setProperty", 6, values(value.String("level"), value.Int(3))},
+		{"properties", 7, nil},
+		{"registerEventWithSignature", 8, append(regPayload(1, 105, 79), 1, 0, 0, 0, 'i')},
+		{"enableStats", 81, []byte{1}},
+		{"enableTrace", 85, []byte{1}},
+		{"echo", 100, fx.Int32(3)},
+		{"slow", 103, fx.Int32(2)},
+		{"blob", 120, fx.Int32(4)},
+	}
+	var out []hostile
+	for _, b := range bases {
+		for k := 0; k <= len(b.pay); k++ {
+			out = append(out, hostile{name: fmt.Sprintf("%s[:%d/%d]", b.name, k, len(b.pay)), typ: net.Call, svc: 1, obj: 1, act: b.act, pay: b.pay[:k]})
+			if k < len(b.pay) {
+				out = append(out, hostile{name: fmt.Sprintf("post-%s[:%d/%d]", b.name, k, len(b.pay)), typ: net.Post, svc: 1, obj: 1, act: b.act, pay: b.pay[:k]})
+			}
+		}
+	}
+	return out
 }
 
 // multiset renders the sorted multiset of frame names.
@@ -329,6 +368,8 @@ func init() {
 		Doc: "an object busy in a gated call; one connection pipelines terminate() + 12 calls (more than its mailbox holds), a second connection one more; then the gate opens"})
 	reg.Register(&reg.Scenario{Property: "C12", Name: "cut-frames", Body: cuts, Quick: 0, Thorough: 1,
 		Doc: "an authenticated peer sends a complete frame, then the same frame cut at every byte position, and closes or stays silent; then a fresh and an established client call every object", MustFlag: []string{"cut-in-header", "cut-in-payload"}})
+	reg.Register(&reg.Scenario{Property: "C12", Name: "truncated-payloads", Body: body(1, false, truncations), Quick: 0, Thorough: 1, MaxSteps: 60000, StepLimitFails: true,
+		Doc: "every request of a 12-request base list (register, unregister, metaObject, property, setProperty, ..., echo, slow, blob) as a call and as a post with its payload cut at every length (complete frames): afterwards every object still serves a fresh and an established client"})
 	reg.Register(&reg.Scenario{Property: "C12", Name: "hostile-2-unbounded", Body: body(2, false), Quick: 0, Thorough: 1, MaxSteps: 60000, StepLimitFails: true,
 		Doc: "authenticated hostile peer: all sequences of <=2 frames of a 35-frame alphabet x abrupt disconnect, unbounded buffers; then a fresh and an established client call every object"})
 	reg.Register(&reg.Scenario{Property: "C12", Name: "hostile-2-bounded", Body: body(2, true), Quick: 0, Thorough: 1, MaxSteps: 60000, StepLimitFails: true,
